@@ -17,6 +17,8 @@ pub struct Ctx {
     out: BufWriter<File>,
     pub n_ops: u64,
     pub last_op: String,
+    pub n_long: u64,
+    pub strict: bool,
     pub failures: Vec<(String, Vec<String>)>,
     pub stats: BTreeMap<String, u64>,
     pub samples: Vec<String>,
@@ -42,6 +44,8 @@ impl Ctx {
             thorough,
             soak: false,
             last_op: String::new(),
+            n_long: 0,
+            strict: false,
             prop: prop.to_string(),
             ops: File::create(format!("{}/ops.txt", dir)).unwrap(),
             out: BufWriter::new(File::create(format!("{}/impl.txt", dir)).unwrap()),
